@@ -19,6 +19,7 @@ type GenCfg struct {
 	GoRoot    string // go_package prefix, e.g. "verifscratch/s12"
 	Services  bool
 	MaxFields int
+	ValueBias bool // prefer struct and enum references (generated-code checks)
 }
 
 type sgen struct {
@@ -109,12 +110,22 @@ func (g *sgen) fieldType(sc *scope) *Type {
 	case x < 58:
 		return &Type{Kind: TAnyMessage, Name: "message"}
 	case x < 78:
+		if g.cfg.ValueBias && r.Bool() {
+			if t := g.ref(sc, isKind(DEnum, DStruct)); t != nil {
+				return t
+			}
+		}
 		if t := g.ref(sc, isKind(DEnum, DStruct, DMessage)); t != nil {
 			return t
 		}
 		return g.scalar()
 	default:
 		var elem *Type
+		if g.cfg.ValueBias && r.Intn(3) == 0 {
+			if t := g.ref(sc, isKind(DEnum, DStruct)); t != nil {
+				return &Type{Kind: TList, Name: "[]", Elem: t}
+			}
+		}
 		switch y := r.Intn(10); {
 		case y < 4:
 			elem = g.scalar()
